@@ -581,7 +581,9 @@ def _(vm, a, ci):
 def char_string(vm, c):
     if isinstance(c, int): return const_str(vm, chr(c))
     if getattr(vm, 'str_mode', 'opaque') == 'bounded':
-        raise Unmodelled('symbolic char to bounded string')
+        w = getattr(vm, 'cp_width', {}).get(c.get_id())
+        if w is None: raise Unmodelled('symbolic char of unknown UTF-8 width to bounded string')
+        return BStr(Buf([c], [w]))
     return SymStr(char_to_str(c))
 
 
@@ -661,7 +663,7 @@ def _(vm, a, ci):
         x = D(vm, x) if isinstance(x, Ref) else x
         if isinstance(x, SymStr):
             t = z3.simplify(x.term)
-            if z3.is_string_value(t): msg = t.as_string(); break
+            if z3.is_string_value(t): msg = zstr(t); break
         if isinstance(x, BStr) and x.concrete() is not None: msg = x.concrete(); break
     raise PanicEdge('panic', f'{ci.method}({msg})')
 
@@ -1105,8 +1107,9 @@ for _t, (_bits, _sg) in list(INT_TYPES.items()):
             else:
                 if truth(vm, z3.Or(z3.ULT(radix, 2), z3.UGT(radix, 36))):
                     raise PanicEdge('panic', 'from_str_radix: radix must lie in the range 2..=36')
-            if isinstance(s, BStr) and s.concrete() is not None and isinstance(radix, int):
-                try: v = int(s.concrete(), radix) if re.fullmatch(r'[+-]?[0-9a-zA-Z]+', s.concrete()) else None
+            ctext = s.concrete() if isinstance(s, BStr) else (zstr(z3.simplify(s.term)) if isinstance(s, SymStr) and z3.is_string_value(z3.simplify(s.term)) else None)
+            if ctext is not None and isinstance(radix, int):
+                try: v = int(ctext, radix) if re.fullmatch(r'[+-]?[0-9a-zA-Z]+', ctext) else None
                 except ValueError: v = None
                 if v is None or not lo <= v <= hi: return err(Adt('ParseIntError', 0, []))
                 return ok(v)
